@@ -74,6 +74,7 @@ static _Atomic int pending;           // submitted items that have not finished
 static _Atomic int all_done;
 static _Atomic int finalizers_expected, finalizers_seen;
 static int use_main_queue, opt_payload, opt_finalizers;
+static int trap_q = -1, trap_on = -1, trap_kind;
 
 // plain (non-atomic) payloads for the memory-visibility clauses of C05
 static uint64_t REC[MAXOP][4];
@@ -410,6 +411,9 @@ static int load_program(const char *path) {
 				if (!strcmp(k, "threads")) nthreads = (int)v;
 				else if (!strcmp(k, "payload")) opt_payload = (int)v;
 				else if (!strcmp(k, "finalizers")) opt_finalizers = (int)v;
+				else if (!strcmp(k, "trapq")) trap_q = (int)v;
+				else if (!strcmp(k, "trapon")) trap_on = (int)v;
+				else if (!strcmp(k, "trapkind")) trap_kind = (int)v;
 			}
 		} else if (!strcmp(w, "q")) {
 			int id, kind, target, flags, width, qos, relpri = 0, chain = -1;
@@ -528,6 +532,15 @@ static void *coordinator(void *arg) {
 	atomic_store(&all_done, 1);
 	pthread_join(jt, 0);
 	atomic_store(&S->janitor_pending, 0);
+	if (trap_q >= 0) {
+		// the one expected-to-trap probe of C18: announced in the log, then the inverse assertion
+		dispatch_async_and_wait(Q[trap_q], ^{      // works for lanes and workloops alike
+			atomic_store(&S->expect_trap, 1);
+			logev(EV_EXPECT_TRAP, -3, trap_on, trap_kind);
+			if (trap_kind == 0) dispatch_assert_queue(Q[trap_on]); else dispatch_assert_queue_not(Q[trap_on]);
+			logev(EV_RET, -3, trap_on, trap_kind);      // reaching this is the failure
+		});
+	}
 	// semaphores: count the permits that are still obtainable, then restore the initial value (required before release)
 	for (int s = 0; s < MAXSEM; s++) if (SEM[s]) {
 		long got = 0;
